@@ -91,6 +91,7 @@ struct Timers {
     map: BTreeMap<u64, (Instant, Option<Waker>)>,
 }
 
+#[allow(dead_code)]
 #[derive(Debug, Clone)]
 pub struct Dgram {
     pub at: Duration,
@@ -113,6 +114,11 @@ struct Net {
     socks: BTreeMap<SocketAddr, Sock>,
     senders: i64,
     latency: Duration,
+    /// Index (in call order) of the one `poll_send` call that reports "not writable"
+    block_at: Option<u64>,
+    send_calls: u64,
+    blocked: Vec<Waker>,
+    blocked_fired: u64,
     sent: u64,
     delivered: u64,
     dropped_no_socket: u64,
@@ -126,6 +132,8 @@ pub enum Ev {
     NoSocket { seq: u64 },
     Timer { id: u64, at_us: u64 },
     Spawn { id: usize },
+    /// The socket that refused a send became writable again
+    Writable,
     /// Choice point marker (not hashed; only present when the trace is kept)
     Point { p: u64, nready: usize, alt: Option<u16> },
 }
@@ -188,6 +196,10 @@ impl World {
                 socks: BTreeMap::new(),
                 senders: 0,
                 latency,
+                block_at: None,
+                send_calls: 0,
+                blocked: Vec::new(),
+                blocked_fired: 0,
                 sent: 0,
                 delivered: 0,
                 dropped_no_socket: 0,
@@ -254,6 +266,9 @@ impl World {
 
     /// (deadline offset, is_datagram, key)
     fn next_world_event(&self) -> Option<(Duration, bool, u64)> {
+        if !self.net.lock().unwrap().blocked.is_empty() {
+            return Some((self.vnow(), false, u64::MAX));
+        }
         let d = { self.net.lock().unwrap().inflight.keys().next().copied() };
         let t = {
             let tm = self.timers.lock().unwrap();
@@ -286,6 +301,14 @@ impl World {
             }
         }
         let at_us = self.vnow().as_micros() as u64;
+        if !is_d && key == u64::MAX {
+            let ws = { std::mem::take(&mut self.net.lock().unwrap().blocked) };
+            self.record(Ev::Writable);
+            for w in ws {
+                w.wake();
+            }
+            return;
+        }
         if is_d {
             let (d, wk) = {
                 let mut n = self.net.lock().unwrap();
@@ -461,6 +484,15 @@ impl World {
         Arc::strong_count(&t[id].wk) as i64 - 2
     }
 
+    pub fn block_send_at(&self, call: Option<u64>) {
+        self.net.lock().unwrap().block_at = call;
+    }
+
+    pub fn send_calls(&self) -> (u64, u64) {
+        let n = self.net.lock().unwrap();
+        (n.send_calls, n.blocked_fired)
+    }
+
     pub fn net_stats(&self) -> NetStats {
         let n = self.net.lock().unwrap();
         let t = self.timers.lock().unwrap();
@@ -496,6 +528,7 @@ pub struct TaskInfo {
     pub waker_refs: i64,
 }
 
+#[allow(dead_code)]
 #[derive(Debug, Clone)]
 pub struct NetStats {
     pub sockets: usize,
@@ -669,9 +702,16 @@ impl fmt::Debug for VSender {
 }
 
 impl UdpSender for VSender {
-    fn poll_send(self: Pin<&mut Self>, t: &Transmit<'_>, _cx: &mut Context<'_>) -> Poll<io::Result<()>> {
+    fn poll_send(self: Pin<&mut Self>, t: &Transmit<'_>, cx: &mut Context<'_>) -> Poll<io::Result<()>> {
         let now = self.world.vnow();
         let mut n = self.world.net.lock().unwrap();
+        let call = n.send_calls;
+        n.send_calls += 1;
+        if n.block_at == Some(call) {
+            n.blocked.push(cx.waker().clone());
+            n.blocked_fired += 1;
+            return Poll::Pending;
+        }
         let seg = t.segment_size.unwrap_or(t.contents.len()).max(1);
         for c in t.contents.chunks(seg) {
             let seq = n.seq;
